@@ -132,4 +132,23 @@ def dLookahead : Doc :=
   root [pathItem "/p" [op [] (responseWithContent (mediaType
     (.node .schema { lists := [("type", ["string"])], strs := [("pattern", "(?!a)")] } []) []))]]
 
+/-- a header whose content has an encoding object one of whose headers is the header itself (4c7d612): the inner
+occurrence is the mark `again` -/
+def cyclicHeader (exts : List String) (encAttrs : Attrs) : Doc :=
+  .node .headerRef { strs := [("key", "X-H"), ("ref", "#/components/headers/H")], flags := ["resolved"] }
+    [("value", .node .header { nums := [("content", 1)], exts := exts }
+      [("content", .node .content {} [("mediaTypes", .node .mediaType { strs := [("key", "multipart/form-data")], flags := ["hasSchema"] }
+        [("schema", schemaRefTo (.node .schema { lists := [("type", ["object"])], flags := ["simple"] } [])),
+         ("encoding", .node .encoding encAttrs
+           [("headers", .node .headerRef { strs := [("key", "X"), ("ref", "#/components/headers/H")], flags := ["resolved"] }
+              [("value", .node .header { flags := ["again"] } [])])])])])])]
+def dCyclicHeader : Doc :=
+  root [pathItem "/p" [op [] (.node .response { flags := ["hasDescription"] } [("headers", cyclicHeader [] { strs := [("key", "f")] })])]]
+/-- … with an extra field in the header itself / an unsupported style in its encoding object -/
+def dCyclicHeaderExtra : Doc :=
+  root [pathItem "/p" [op [] (.node .response { flags := ["hasDescription"] } [("headers", cyclicHeader ["bogus"] { strs := [("key", "f")] })])]]
+def dCyclicHeaderStyle : Doc :=
+  root [pathItem "/p" [op [] (.node .response { flags := ["hasDescription"] }
+    [("headers", cyclicHeader [] { strs := [("key", "f"), ("style", "matrix")] })])]]
+
 end KinModel.DocValidate.W
